@@ -191,6 +191,7 @@ type World struct {
 	ActorNames map[string]string
 
 	Raw    *rawWorld
+	CS     *csState
 	Stats  *Stats
 	Log    []string
 	ctx    context.Context
